@@ -115,6 +115,7 @@ pub fn run(ctx: &Ctx) -> Outcome {
                     } else {
                         rep.cases += 1;
                     }
+                    rep.outcome(text.as_bytes());
                     stripped.insert(strip_buffer_data(&text));
                     // ---- zeroize: drop as the terminal transition --------------------------------------
                     if zeroize && cfg.bs >= 8 {
